@@ -64,4 +64,15 @@ theorem C04_error_reply_and_notice (s : S) (code : Nat) (enh : SmtpV.Spec.Enh) (
     (nw (protocolError s code enh t) = nw s + 2 ∧ (protocolError s code enh t).c.closed = true) :=
   nw_protocolError s code enh t
 
+open SmtpV.Server in
+/-- **C04_lmtp_one_reply_per_recipient.**  LMTP, on the server model: every command other than AUTH/STARTTLS is answered with
+    one write; an accepted LAST chunk — delivered or failed — with one per accepted recipient; an accepted DATA with 354 and then
+    one per accepted recipient (or, when a backend without per-recipient statuses panics, 354 and the single 421). -/
+theorem C04_lmtp_one_reply_per_recipient (s : S) (cmd arg : Bytes) (hl : s.cfg.lmtp = true)
+    (hv : verbOf cmd ≠ .auth ∧ verbOf cmd ≠ .starttls ∧ verbOf cmd ≠ .unknown) :
+    nw (dispatch s cmd arg) = nw s + 1 ∨
+    (verbOf cmd = .bdat ∧ nw (dispatch s cmd arg) = nw s + s.c.recipients.length) ∨
+    (verbOf cmd = .data ∧ (nw (dispatch s cmd arg) = nw s + 1 + s.c.recipients.length ∨ nw (dispatch s cmd arg) = nw s + 2)) :=
+  nw_dispatch_lmtp s cmd arg hl hv
+
 end SmtpV.Props.C04
